@@ -603,6 +603,12 @@ func (i *Install) replaceRelease(rel *release.Release) error {
 	releaseutil.Reverse(hist, releaseutil.SortByRevision)
 	last := hist[0]
 
+	// Another operation on this release is still running: replacing now would
+	// supersede its in-flight revision and let both proceed.
+	if last.Info.Status.IsPending() {
+		return errPending
+	}
+
 	// Update version to the next available
 	rel.Version = last.Version + 1
 
